@@ -341,6 +341,8 @@ type runner struct {
 	T        time.Duration
 	stuck    string
 	invalid  bool
+
+	awaitingTimer bool // the current step is a time-out: waits must outlast the timer
 }
 
 const watchdog = 4 * time.Second
@@ -397,10 +399,10 @@ func (r *runner) waitFor(what string, cond func() bool) bool {
 		wd = 300 * time.Millisecond // the code evidently does not follow the scripts any more
 	}
 	if r.stuck != "" {
-		wd = 50 * time.Millisecond
+		wd = 2 * time.Millisecond
 	}
-	if wd < 2*r.T+20*time.Millisecond { // never shorter than the response timeout being awaited
-		wd = 2*r.T + 20*time.Millisecond
+	if r.awaitingTimer && wd < 2*r.T+20*time.Millisecond {
+		wd = 2*r.T + 20*time.Millisecond // never shorter than the response timeout being awaited
 	}
 	deadline := time.Now().Add(wd)
 	for i := 0; ; i++ {
@@ -629,6 +631,7 @@ func runScript(steps []step, T time.Duration) (observation, bool) {
 			}()
 		}
 		// settle
+		r.awaitingTimer = s.Op == "timeout"
 		r.waitFor(fmt.Sprintf("step %d (%s): SendFunc invocations", i, s.Op), func() bool { return r.nInvs() >= s.awaitSends })
 		r.resolve()
 		r.waitFor(fmt.Sprintf("step %d (%s): responders returned", i, s.Op), func() bool { return int(atomic.LoadInt32(&r.returned)) >= s.awaitResp })
